@@ -1,6 +1,7 @@
 package symgo
 
 import (
+	"time"
 	"fmt"
 	"go/types"
 	"hash/fnv"
@@ -335,6 +336,9 @@ func registerK8sIntrinsics(e *Engine) {
 	e.reg("time.Sleep", noop)
 	e.reg("k8s.io/apimachinery/pkg/util/wait.Jitter", func(fr *frame, args []value) value { return args[0] })
 	e.reg("k8s.io/client-go/util/flowcontrol.(*Backoff).GC", noop)
+	// back-off tables only influence requeue delays; but a delay is never zero once Next was called for the id, and
+	// callers do branch on "is there a requeue delay"
+	e.reg("(*k8s.io/client-go/util/flowcontrol.Backoff).Get", func(fr *frame, args []value) value { return int64(time.Second) })
 	e.regPrefix("(*k8s.io/client-go/util/flowcontrol.Backoff).", noop)
 	// metrics recorders
 	e.regPrefix("(*package-operator.run/internal/metrics.", noop)
